@@ -471,3 +471,35 @@ func genSshAuth() string {
 	b.WriteString("\nend Scrapli.Gen.SshAuth\n")
 	return b.String()
 }
+
+// ---- SshDial.lean: which string the standard transport hands to crypto/ssh as the host name ----
+//
+// ssh.Dial(network, addr, cfg) and ssh.NewClientConn(conn, addr, cfg) pass `addr` to the
+// HostKeyCallback as `hostname`: that is the key under which known_hosts is searched. Fact: the
+// text of that argument for every such call in transport/standard.go, in source order.
+
+func init() { extraGenerators["SshDial.lean"] = genSshDial }
+
+func genSshDial() string {
+	var b strings.Builder
+	b.WriteString("-- GENERATED by go/cmd/extract (gen_c14.go) from transport/standard.go; do not edit.\n")
+	b.WriteString("import ScrapliModel.Bytes\nnamespace Scrapli.Gen.SshDial\nopen Scrapli\n\n")
+	files := parseDir(filepath.Join(*repo, "transport"))
+	var addrs []string
+	if f, ok := files["standard.go"]; ok {
+		ast.Inspect(f, func(n ast.Node) bool {
+			c, ok := n.(*ast.CallExpr)
+			if !ok {
+				return true
+			}
+			p := selPath(c.Fun)
+			if len(p) == 2 && p[0] == "ssh" && (p[1] == "Dial" || p[1] == "NewClientConn") && len(c.Args) >= 2 {
+				addrs = append(addrs, leanBytes(p[1]+": "+c14ExprText(c.Args[1])))
+			}
+			return true
+		})
+	}
+	fmt.Fprintf(&b, "/-- `ssh.Dial` / `ssh.NewClientConn` calls of the standard transport with the text of their address\n(= host-key lookup name) argument, in source order -/\ndef hostNameArgs : List Bytes := [%s]\n", strings.Join(addrs, ", "))
+	b.WriteString("\nend Scrapli.Gen.SshDial\n")
+	return b.String()
+}
